@@ -37,11 +37,26 @@ def gen_history(rng):
             job["preamble"] = None
             if not base["tree"]:
                 job["layout"] = "flat"
-            hist.append({"inputs": base["inputs"], "cmps": base["cmps"], "job": job, "reuse": j, "tree": base["tree"]})
+            hist.append({"inputs": base["inputs"], "cmps": base["cmps"], "job": job, "reuse": j, "tree": base["tree"],
+                         **{k: base[k] for k in ("dictFields", "dictRegex", "kinds", "datetime") if k in base}})
         else:
             c = _c06.gen_case(rng)
+            r2 = rng.random()
+            if r2 < 0.3:
+                # options of this call only: they must not leak into later calls
+                from .. import gen as _gen
+                c["dictFields"] = rng.sample(_gen.WORDS, k=rng.randint(1, 4))
+            elif r2 < 0.4:
+                c["dictRegex"] = [rng.choice([r"^k\d$", r"^[a-z]$", r"^(id|name|data)$"])]
+            elif r2 < 0.5:
+                c["kinds"] = rng.choice([["IntString"], [], ["BooleanString", "FloatString"]])
+            elif r2 < 0.55:
+                c["datetime"] = True
             try:
-                reg, _ = stages.build_registry([tuple(x) for x in c["inputs"]], stages.make_registry(), worker.cmps_from(c["cmps"]))
+                reg, _ = stages.build_registry([tuple(x) for x in c["inputs"]],
+                                               stages.make_registry(tuple(c.get("kinds", ("IntString", "FloatString", "BooleanString"))),
+                                                                    datetime=c.get("datetime", False)),
+                                               worker.cmps_from(c["cmps"]), c.get("dictFields", ()), c.get("dictRegex", ()))
                 c["tree"] = common.is_tree(reg)
             except Exception:  # noqa
                 c["tree"] = False
